@@ -766,7 +766,7 @@ func (ex *Executor) evalCallSpec(e *SExpr, env *SpecEnv) (Val, error) {
 		if err != nil {
 			return Val{}, err
 		}
-		earr := env.heapArr("E.Int.u8", SAAII)
+		earr := env.heapArr(byteElems, SAAII)
 		return specInt(App("slicecontent", SInt, Select(earr, ex.sarr(a.T)), ex.soff(a.T), ex.slen(a.T))), nil
 	case "cancelled":
 		return specBool(Bool(env.st.cancelled)), nil
